@@ -1,5 +1,5 @@
 """C11: clone / export_leaf / independence of copies, on every tree of the generator."""
-import random, datetime as dt
+import zlib, random, datetime as dt
 from . import common as C
 from . import world as W
 odml = W.odml
@@ -48,7 +48,7 @@ def snap(objs, idtok):
 
 
 EDITS = ["rename", "rename_to_sibling", "rename_to_sibling", "set_def", "append_value", "setitem_value", "mutate_inner", "remove_child", "append_child",
-         "set_card", "reorder", "set_values", "set_type"]
+         "append_prop", "create_prop", "set_card", "reorder", "set_values", "set_type"]
 
 
 def apply_edit(o, kind, e, rng):
@@ -78,6 +78,10 @@ def apply_edit(o, kind, e, rng):
             o.remove(ch[0])
     elif e == "append_child" and kind in ("sec", "doc"):
         o.append(odml.Section(name="added%d" % rng.randrange(1000), type="t"))
+    elif e == "append_prop" and kind == "sec":
+        o.append(odml.Property(name="addedp%d" % rng.randrange(1000), values=[1]))
+    elif e == "create_prop" and kind == "sec":
+        o.create_property("createdp%d" % rng.randrange(1000), values=["v"])
     elif e == "set_card":
         if kind == "prop":
             o.val_cardinality = (0, 9)
@@ -100,7 +104,7 @@ def subtree(o):
 
 def replay(st):
     mk = mk_salted(salt_of(st), unnamed=True)
-    rng = random.Random(hash(repr(sorted(st["name"].items()))) & 0xffffff)
+    rng = random.Random(zlib.crc32(repr(sorted(st["name"].items())).encode()) & 0xffffff)
     live = [h for h, k in st["kind"].items() if k in ("doc", "sec", "prop")]
     for x in live:
         kind = st["kind"][x]
